@@ -414,7 +414,7 @@ def run(ctx):
     only = getattr(ctx, 'only', None)
     if not only or 'table' in only:
         run_hypothesis(ctx, 'table', table_case(), prop_table, 600 if quick else 20000)
-    if not only or 'law' in only:
+    if (not only or 'law' in only) and ctx.shard_id == 0:
         cases = list(law_cases(3, quick))
         mpctx = multiprocessing.get_context('fork')
         found = 0
@@ -430,7 +430,7 @@ def run(ctx):
                     found += 1
                     if found >= 4:
                         break
-        if not quick:
-            run_hypothesis(ctx, 'law-n4', law_case_n4(), law_case_check, 300)
+    if (not only or 'law' in only) and not quick:
+        run_hypothesis(ctx, 'law-n4', law_case_n4(), law_case_check, 300)
     if not only or 'percolate' in only:
         run_cases(ctx, 'percolate', percolate_cases(), percolate_check)
